@@ -213,6 +213,8 @@ class WireTheory:
         self.f_len_min = F("lenoct_min", Int, Bytes)
         self.f_len_form = F("lenoct_form", Int, Int, Bytes)
         n = z3.Int("n")
+        bb = z3.Const("b", Bytes)
+        rt.theory.add_once("blen>=0", lambda: z3.ForAll([bb], rt.f_blen(bb) >= 0))
         rt.theory.note("wire model: BER constructors are uninterpreted (equal structure gives equal bytes; nothing is "
                        "assumed about unequal terms); x690 serialises/parses its classes to/from these terms (assumed "
                        "contract, validated against the independent codec)")
@@ -310,8 +312,8 @@ class WireTheory:
 
     def _add(self, rt, interp, a, b):
         from .stdlib import MISSING
-        if is_wire(a) and is_wire(b) and (isinstance(a, W) or isinstance(b, W)):
-            return normalise(WCat([a, b]))
+        if is_wire(a) and is_wire(b) and not (isinstance(a, bytes) and isinstance(b, bytes)):
+            return normalise(WCat([a, b]))     # one normal form for concatenation (flattened, right-folded for the solver)
         return MISSING
 
     def _join(self, interp, sep, items):
